@@ -14,7 +14,7 @@ RULE = ("points 0, G, -G, small multiples, random multiples, equal/opposite pair
         "scalars 0, ±1, 2, n-1, n, n+1, multiples of n, negative, longer than n, sparse/dense/alternating, half-order boundary values; "
         "every add/dbl/mul/mul_fix/mul_sim variant by name; non-trivial = distinct line whose result is not the identity")
 
-USES_GENERATED = True
+GENERATED = ["ep"]
 EXTRA_THEOREM_MODULES = ["RelicVerif.Lemmas.EpFormulas"]
 
 CURVES = {"base": [12, 13, 14, 15, 23, 24]}   # NIST_P256, BSI_P256, SECG_K256, SM2_P256, BN_P256, SM9_P256
